@@ -119,12 +119,28 @@ def run_property(pid: str, tier: str = "quick", seed: int = 0) -> int:
         print(f"[{pid}] {status} (exit {code}) obligations={ev['coverage'].get('obligations')} discharged={ev['coverage'].get('discharged')} wall={ev['wall_s']}s")
         return code
 
+    def undecided(reason, extra=None):
+        """The deductive check could not decide (unsupported construct, contract target changed,
+        solver left an obligation open).  A bounded stand-in - the replay driver's bank of concrete
+        inputs judged by the statement's clauses on the real code - may still show a violation; it
+        never turns 'undecided' into 'held'."""
+        rp = run_replay(pid, {"obligation": "__bounded__", "path": [], "model": {}, "info": {}, "seed": seed})
+        extra = dict(extra or {})
+        extra["bounded_standin_after_undecided"] = {"label": "bounded (never counted as proved)", "result": rp}
+        if rp.get("confirmed"):
+            rpath = REPLAYS / f"{pid}_bounded_standin.json"
+            rpath.write_text(json.dumps({"obligation": f"{pid}/bounded-stand-in (deductive check undecided: {reason})", "replay": rp}, indent=1, default=str))
+            print(f"VIOLATION property={pid} replay={rpath}")
+            ev["violations"] = 1
+            return finish(1, f"deductive check undecided ({reason}); violation found by the bounded stand-in", extra)
+        return finish(2, f"undecided: {reason}", extra)
+
     try:
         E = Engine()
         mod = importlib.import_module(f"contracts.{pid}")
         spec: Spec = mod.build(E)
     except Unsupported as e:
-        return finish(2, f"undecided: {e}")
+        return undecided(str(e))
     except Exception:
         traceback.print_exc()
         return finish(3, "checker failure while loading contracts", {"error": traceback.format_exc()[-3000:]})
@@ -146,7 +162,7 @@ def run_property(pid: str, tier: str = "quick", seed: int = 0) -> int:
             functions.append({"function": label, "paths": npaths, "obligations": nob,
                               "source_sha": E.repo.func_sha(mod_, fn_), "file": str(mod_.path), "line": fn_.lineno})
     except Unsupported as e:
-        return finish(2, f"undecided: {e}", {"functions": functions})
+        return undecided(str(e), {"functions": functions})
     except Exception:
         traceback.print_exc()
         return finish(3, "checker failure during symbolic execution", {"error": traceback.format_exc()[-3000:], "functions": functions})
@@ -164,7 +180,7 @@ def run_property(pid: str, tier: str = "quick", seed: int = 0) -> int:
         try:
             ok, detail = fn(E)
         except Unsupported as e:
-            return finish(2, f"undecided: {e}")
+            return undecided(str(e))
         syn_results.append({"name": name, "ok": ok, "detail": detail})
         if not ok:
             syn_fail.append((name, detail))
@@ -315,7 +331,7 @@ def run_property(pid: str, tier: str = "quick", seed: int = 0) -> int:
         return finish(1, f"{len(grouped)} failed obligation(s) on {len(violations)} path(s)")
     if by["unknown"]:
         ev["coverage"]["undecided_names"] = [ob.name for ob in by["unknown"]][:40]
-        return finish(2, f"undecided: {len(by['unknown'])} obligation(s) left open by all back ends")
+        return undecided(f"{len(by['unknown'])} obligation(s) left open by all back ends")
     if known_hits:
         return finish(0, f"held except for {len(known_hits)} known finding(s)")
     return finish(0, "held: every obligation discharged")
